@@ -171,3 +171,47 @@ Proof.
       apply IHes. intros m Hm. apply He. now right.
     + apply IHes. intros m Hm. apply He. now right.
 Qed.
+
+(* ---- the repaired mock walk terminates on every finite graph ---------------------------------- *)
+Lemma mock_path_total g : wf_graph g ->
+  forall fuel path n, n < List.length g -> mem_nat n path = false -> unv (List.length g) path < fuel ->
+  exists k, mock_path fuel g path n = Some k.
+Proof.
+  intros Hwf. induction fuel as [|f IH]; intros path n Hn Hnp Hfuel; [lia|].
+  cbn [mock_path].
+  assert (Hstep : unv (List.length g) (n :: path) < f).
+  { pose proof (unv_cons (List.length g) path n Hn Hnp). lia. }
+  assert (Hedges : forall e, In e (edges_of g n) -> fst e < List.length g).
+  { intros [t b] Hin. apply (Hwf n t b Hin). }
+  revert Hedges. generalize (edges_of g n) as es. intros es Hedges.
+  enough (H : forall k0, exists k,
+    fold_left (fun (acc : option nat) (e : nat * bool) =>
+                 match acc with
+                 | None => None
+                 | Some k =>
+                     if snd e then
+                       (if mem_nat (fst e) (n :: path) then Some (k + 1)
+                        else match mock_path f g (n :: path) (fst e) with
+                             | Some j => Some (k + j + 1)
+                             | None => None end)
+                     else Some (k + 1)
+                 end) es (Some k0) = Some k) by apply H.
+  induction es as [|[t b] es IHes]; intros k0; cbn [fold_left].
+  - now exists k0.
+  - assert (Hes : forall e, In e es -> fst e < List.length g) by (intros e He; apply Hedges; now right).
+    cbn [snd fst]. destruct b.
+    + destruct (mem_nat t (n :: path)) eqn:Em.
+      * apply (IHes Hes).
+      * destruct (IH (n :: path) t (Hedges (t, true) (or_introl eq_refl)) Em Hstep) as [j Ej].
+        rewrite Ej. apply (IHes Hes).
+    + apply (IHes Hes).
+Qed.
+
+Theorem mock_path_terminates g n : wf_graph g -> n < List.length g ->
+  mock_path (S (List.length g)) g [] n <> None.
+Proof.
+  intros Hwf Hn.
+  destruct (mock_path_total g Hwf (S (List.length g)) [] n Hn eq_refl) as [k E].
+  - pose proof (unv_le (List.length g) []). lia.
+  - rewrite E. discriminate.
+Qed.
